@@ -42,6 +42,9 @@ def repo_hash():
     return tree_hash(REPO)
 
 
+ENCODE_MIR = {'pipe-harness'}
+
+
 def dump(roots, tag='main', nobody=(), quiet=False, harness=None):
     """returns path of the JSON dump for the given root suffixes, rebuilt if /repo or the driver changed"""
     roots = sorted(set(roots))
@@ -81,6 +84,10 @@ def dump(roots, tag='main', nobody=(), quiet=False, harness=None):
                'CARGO_TARGET_DIR': os.path.join(CACHE, 'smir-target' + ('-' + harness if harness else '')),
                'CARGO_PROFILE_DEV_DEBUG_ASSERTIONS': 'false', 'CARGO_PROFILE_DEV_OVERFLOW_CHECKS': 'true',
                'CARGO_PROFILE_DEV_DEBUG': '0', 'RUSTUP_TOOLCHAIN': 'nightly'}
+        if harness in ENCODE_MIR:
+            # MIR of every (also non-generic, private) function of the dependencies is kept in their metadata, so that the
+            # harness crate's compilation session resolves the whole pipeline behind the public entry points
+            env['RUSTFLAGS'] = '-Zalways-encode-mir'
         # the wrapper's output is not part of cargo's fingerprint: force the crate to be recompiled
         sh(['cargo', 'clean', '-p', crate_name.replace('_', '-')], cwd=build_dir, env=env)
         r = sh(['cargo', 'build', '--offline'] + pkg_args, cwd=build_dir, env=env)
